@@ -5,3 +5,8 @@ claim("C01",
       "Generated histories (<= 40/80 ops, N in 1..8, 6 storage kinds, 4 dtypes, scalar/tensor offsets, in/out-of-place) are applied to RecordTensor and to a pointer-free list model; after every operation all N slots, the returned tensors, pointer range and storage shape/dtype are compared. The inductive one-step form is enumerated exhaustively for N <= 3 (quick) / N <= 6 (thorough): every operation x every argument from every (N, pointer) state with distinct contents. Bounded exploration, no proof.",
       "Trusts: the reference model pbt/models/ring.py, torch indexing, CPU. Values are small half-integers (exact in every dtype). dtype promotion on the contiguous out-of-place writerange path is documented as 'may change' and not asserted.",
       "DESIGN.md section 5, C01")
+claim("C02",
+      "model-based property testing: Hypothesis-generated ring states + select/insert operations vs ring model and an exact-rational time model with ambiguity band",
+      "Each case builds a ring state with the pointer anywhere and applies 1-4 (thorough: up to 8) select/insert operations with scalar, per-element tensor and tensor+D times drawn from strata (exact grid, +-tol/2, +-2tol, quarter/half/arbitrary fractions, both range limits, outside), all 6 shipped interpolations and 8 extrapolations, tolerances 0..0.6dt, offsets 0..3, dt incl. non-representable 1.3/0.1/0.7. Oracle: documented grid predicate on exact rationals -> stored sample or interpolation of (older, newer, elapsed); insert writes exactly the addressed slots (all other slots bit-identical); out-of-range raises ValueError; insert->select round trip for matching pairs. Bounded random exploration.",
+      "Trusts pbt/models/timeidx.py and ring.py. Elements within 8 ulp of the tolerance boundary / exactly half a step for nearest are counted ambiguous and skipped. Float storage only.",
+      "DESIGN.md section 5, C02")
